@@ -382,7 +382,7 @@ def t_simitem(rng, gid, configured=None, tag=True):
 def _sub_for_list(rng, gid, allow_ref=None):
     """A subgrader for SingleListGrader / ListGrader: returns (data, items, targets, depth)."""
     r = rng.random()
-    if allow_ref and r < 0.3:
+    if allow_ref and r < 0.42:
         ref = pick(rng, allow_ref)
         return {'__ref__': ref['id']}, ref['items'], ref['targets'], 1
     if r < 0.45:
